@@ -12,6 +12,7 @@ is more robust w.r.t. argument numbering than using repr.
 # Modified by Anders Logg, 2009-2010.
 # Modified by Johan Hake, 2010.
 
+import re
 from functools import cmp_to_key
 
 from ufl.argument import Argument
@@ -125,11 +126,26 @@ def _cmp_argument(a, b):
         return _cmp_function_space(a, b)
 
 
+_digits = re.compile(r"(\d+)")
+
+
+def _repr_sort_key(o):
+    """Sort key from repr, with embedded integers compared as numbers."""
+    # Counts and ufl_ids appear in the repr of e.g. Constant and
+    # GeometricQuantity. Comparing them as text would give "10" < "9",
+    # making the ordering (and thus the signature) depend on the
+    # values of the global counters and not only on creation order.
+    # re.split with one group alternates text, digits, text, ...
+    # The repr itself is kept as a tie breaker ("1.05" vs "1.5").
+    r = repr(o)
+    return ([int(s) if i % 2 else s for i, s in enumerate(_digits.split(r))], r)
+
+
 def _cmp_terminal_by_repr(a, b):
     """Cmp terminal by repr."""
     # The cost of repr on a terminal is fairly small, and bounded
-    x = repr(a)
-    y = repr(b)
+    x = _repr_sort_key(a)
+    y = _repr_sort_key(b)
     return -1 if x < y else (0 if x == y else 1)
 
 
@@ -153,8 +169,17 @@ _terminal_cmps[Label._ufl_typecode_] = _cmp_label
 
 def _cmp_base_form_operator(a, b):
     """Cmp the data of base form operators that is not held by their operands."""
-    x = (a.derivatives, repr(a.ufl_function_space()), tuple(map(repr, a.argument_slots())))
-    y = (b.derivatives, repr(b.ufl_function_space()), tuple(map(repr, b.argument_slots())))
+    # Mesh ids and counts in the reprs must compare as numbers
+    x = (
+        a.derivatives,
+        _repr_sort_key(a.ufl_function_space()),
+        tuple(map(_repr_sort_key, a.argument_slots())),
+    )
+    y = (
+        b.derivatives,
+        _repr_sort_key(b.ufl_function_space()),
+        tuple(map(_repr_sort_key, b.argument_slots())),
+    )
     return -1 if x < y else (0 if x == y else 1)
 
 
